@@ -127,6 +127,7 @@ type CheckRun struct {
 	Gone       map[string]bool // functions under contract that no longer exist in the tree
 	LoopCounts map[string]int
 	ParamNames map[string][]string
+	Sigs       map[string]string
 	Fallback  []string // functions whose deductive proof was lost and replaced by the bounded fallback
 }
 
@@ -187,8 +188,20 @@ func runCheck(prop, tier string, rebaseline bool) int {
 	run.Assume = specs.Assumes
 	if !rebaseline {
 		loadPinnedTables()
+		for _, name := range specs.Order {
+			if fn := ld.funcs[name]; fn != nil {
+				if want, ok := pinnedSigs[name]; ok && want != sigKey(fn) {
+					specs.Void[name] = true
+					if run.Gone == nil {
+						run.Gone = map[string]bool{}
+					}
+					run.Gone[name] = true
+					run.Notes = append(run.Notes, fmt.Sprintf("contract for %s: the function's parameter or result types changed (%s, was %s): the contract is void, the function is executed in place at its call sites", name, sigKey(fn), want))
+				}
+			}
+		}
 	} else {
-		pinnedLoops, pinnedParams = map[string]int{}, map[string][]string{}
+		pinnedLoops, pinnedParams, pinnedSigs = map[string]int{}, map[string][]string{}, map[string]string{}
 	}
 
 	var smtObls []*Obligation
@@ -197,6 +210,9 @@ func runCheck(prop, tier string, rebaseline bool) int {
 	// a precondition clause tagged with the property is discharged at the call sites: the callers serve it too
 	preProp := map[*ssa.Function]bool{}
 	for _, name := range specs.Order {
+		if specs.Lookup(name) == nil {
+			continue
+		}
 		for _, c := range specs.Lookup(name).Requires {
 			if hasProp(c.Props, prop) && ld.funcs[name] != nil {
 				preProp[ld.funcs[name]] = true
@@ -219,6 +235,9 @@ func runCheck(prop, tier string, rebaseline bool) int {
 		return false
 	}
 	for _, name := range specs.Order {
+		if specs.Void[name] {
+			continue
+		}
 		sp := specs.Lookup(name)
 		if !specServes(sp, prop) && !callsPre(ld.funcs[name]) {
 			continue
@@ -251,6 +270,10 @@ func runCheck(prop, tier string, rebaseline bool) int {
 			pn = append(pn, p.Name())
 		}
 		run.ParamNames[name] = pn
+		if run.Sigs == nil {
+			run.Sigs = map[string]string{}
+		}
+		run.Sigs[name] = sigKey(fn)
 		e.verifyFunction(fn, sp)
 		if e.misfit {
 			run.Notes = append(run.Notes, e.notes...)
@@ -324,7 +347,7 @@ func runCheck(prop, tier string, rebaseline bool) int {
 	if !rebaseline {
 		// stage-1 counterexamples over strings: run the real function on the model's inputs
 		for _, r := range run.Results {
-			if r.OK || r.Status != "sat" || strings.HasPrefix(r.Name, "gen[") {
+			if r.OK || strings.HasPrefix(r.Name, "gen[") || (r.Status != "sat" && r.Status != "unknown" && r.Status != "timeout") {
 				continue
 			}
 			fn := r.Name
@@ -474,30 +497,52 @@ func boundedFallback(run *CheckRun, ld *Loaded, specs *SpecDB, prop, tier string
 			need[f] = append(need[f], name+" [missing]")
 		}
 	}
+	callPreRe := regexp.MustCompile(`/call-pre:(.+):[^:]*$`)
 	for _, f := range sortedKeys(need) {
 		sp := specs.Lookup(f)
-		e := newExec(ld, specs)
-		e.bounded = K
-		e.verifyFunction(ld.funcs[f], sp)
+		var e *Exec
+		var aggs []*AggOb
+		var got map[string]bool
+		var bad []string
+		inlined := map[string]bool{}
+		for attempt := 0; attempt < 2; attempt++ {
+			e = newExec(ld, specs)
+			e.bounded = K
+			e.forceInline = inlined
+			e.verifyFunction(ld.funcs[f], sp)
+			if len(e.errs) > 0 {
+				break
+			}
+			var obls []*Obligation
+			for _, o := range e.obls {
+				if hasProp(o.Props, prop) {
+					obls = append(obls, o)
+				}
+			}
+			dischargeAll(obls, timeout)
+			aggs = aggregate(obls)
+			got = map[string]bool{}
+			bad = nil
+			more := false
+			for _, a := range aggs {
+				got[a.Name] = true
+				if len(a.Failed) > 0 && !isKF(a.Name) {
+					bad = append(bad, a.Name+" ["+a.Failed[0].Res.Status+"]")
+					// a callee whose precondition cannot be established here: the precondition is part of the modular
+					// proof, not of the property. Second attempt: its body is executed in place instead.
+					if m := callPreRe.FindStringSubmatch(a.Name); m != nil && !inlined[m[1]] && ld.funcs[m[1]] != nil && len(ld.funcs[m[1]].Blocks) > 0 {
+						inlined[m[1]] = true
+						more = true
+					}
+				}
+			}
+			if len(bad) == 0 || !more {
+				break
+			}
+		}
 		if len(e.errs) > 0 {
 			run.Notes = append(run.Notes, fmt.Sprintf("%s: bounded fallback not possible: %s", f, strings.Join(e.errs, "; ")))
 			continue
-		}
-		var obls []*Obligation
-		for _, o := range e.obls {
-			if hasProp(o.Props, prop) {
-				obls = append(obls, o)
-			}
-		}
-		dischargeAll(obls, timeout)
-		aggs := aggregate(obls)
-		got := map[string]bool{}
-		var bad []string
-		for _, a := range aggs {
-			got[a.Name] = true
-			if len(a.Failed) > 0 && !isKF(a.Name) {
-				bad = append(bad, a.Name+" ["+a.Failed[0].Res.Status+"]")
-			}
 		}
 		// everything the contract promises must have been re-established within the bound
 		for _, name := range base[prop] {
@@ -525,6 +570,9 @@ func boundedFallback(run *CheckRun, ld *Loaded, specs *SpecDB, prop, tier string
 			}
 		}
 		note := fmt.Sprintf("bounded fallback: the deductive proof of %s does not go through on the current code (%s); the same contract holds on every path with at most %d loop iterations in total (%d longer paths pruned)", f, strings.Join(firstN(need[f], 4), ", "), K, e.boundHits)
+		if len(inlined) > 0 {
+			note += fmt.Sprintf("; callees executed in place because their precondition could not be established at the call: %s", strings.Join(sortedKeys(inlined), ", "))
+		}
 		for _, a := range aggs {
 			r := aggResult(a)
 			r.Bounded = true
@@ -549,6 +597,19 @@ var pinnedLoops map[string]int
 // parameter in the code does not detach the contract.
 var pinnedParams map[string][]string
 
+// pinnedSigs: parameter and result types (receiver included) each function under contract had when the baseline
+// was taken. A contract speaks about values of those types: if the types changed, it is not a contract of this
+// function any more (void: the function is executed in place wherever it is called).
+var pinnedSigs map[string]string
+
+func sigKey(fn *ssa.Function) string {
+	var ps []string
+	for _, p := range fn.Params {
+		ps = append(ps, typeKey(p.Type()))
+	}
+	return strings.Join(ps, ",") + "->" + typeKey(fn.Signature.Results())
+}
+
 func loadPinnedTables() {
 	base := loadBaseline()
 	pinnedLoops = map[string]int{}
@@ -556,6 +617,12 @@ func loadPinnedTables() {
 		if i := strings.LastIndex(kv, "="); i > 0 {
 			n, _ := strconv.Atoi(kv[i+1:])
 			pinnedLoops[kv[:i]] = n
+		}
+	}
+	pinnedSigs = map[string]string{}
+	for _, kv := range base["#sig"] {
+		if i := strings.Index(kv, "="); i > 0 {
+			pinnedSigs[kv[:i]] = kv[i+1:]
 		}
 	}
 	pinnedParams = map[string][]string{}
@@ -781,6 +848,20 @@ func finishCheck(run *CheckRun, rebaseline bool) int {
 			pms = append(pms, f+"="+pm[f])
 		}
 		base["#params"] = pms
+		sg := map[string]string{}
+		for _, kv := range base["#sig"] {
+			if i := strings.Index(kv, "="); i > 0 {
+				sg[kv[:i]] = kv[i+1:]
+			}
+		}
+		for f, v := range run.Sigs {
+			sg[f] = v
+		}
+		var sgs []string
+		for _, f := range sortedKeys(sg) {
+			sgs = append(sgs, f+"="+sg[f])
+		}
+		base["#sig"] = sgs
 		data, _ := json.MarshalIndent(base, "", " ")
 		os.WriteFile(baselineFile, data, 0o644)
 		fmt.Printf("baseline %s: %d obligations proved, %d failing\n", prop, len(names), len(run.Results)-len(names))
